@@ -68,6 +68,10 @@ func model(c *refexp.Case) string {
 }
 
 func main() {
+	if len(os.Args) > 1 && os.Args[1] == "recog" {
+		recogMain()
+		return
+	}
 	n, dis, agree, shellsDiffer := 0, 0, 0, 0
 	seen := map[string]int{}
 	refexp.Product(func(c refexp.Case) {
